@@ -456,4 +456,37 @@ theorem setBlockType_keeps_children (S : Schema) (ty : TypeId) (attrs : Attrs) (
               exact .inr ⟨st1, nn, hclear, hnn, rfl, hst, fun hse =>
                 retypeStep_keeps_children S _ _ _ _ nn (createNode_shape S _ _ _ _ hty hnn) hse ha⟩
 
+/-- **the node-level planners change only the addressed node**: `add_node_mark`, `remove_node_mark`
+    (mark or mark type) and `set_node_attribute` emit at most the one node step at `pos`, so every
+    token other than `pos` is unchanged and the token at `pos` keeps its shape -/
+theorem nodePlanners_local (S : Schema) (tr tr' : Tr) (pos : Nat)
+    (h : (∃ m, tr.addNodeMark S pos m = .ok tr') ∨ (∃ sel, tr.removeNodeMark S pos sel = .ok tr') ∨
+      (∃ n v, tr.setNodeAttribute S pos n v = .ok tr')) :
+    (ftoks tr'.doc.kids).length = (ftoks tr.doc.kids).length ∧
+    (∀ i, i ≠ pos → tokAt (ftoks tr'.doc.kids) i = tokAt (ftoks tr.doc.kids) i) ∧
+    (tokAt (ftoks tr'.doc.kids) pos).shape = (tokAt (ftoks tr.doc.kids) pos).shape := by
+  have key : ∀ st : Step, ((∃ m, st = .addNodeMark pos m) ∨ (∃ m, st = .removeNodeMark pos m) ∨
+      (∃ n v, st = .attr pos n v)) → tr.step S st = .ok tr' →
+      (ftoks tr'.doc.kids).length = (ftoks tr.doc.kids).length ∧
+      (∀ i, i ≠ pos → tokAt (ftoks tr'.doc.kids) i = tokAt (ftoks tr.doc.kids) i) ∧
+      (tokAt (ftoks tr'.doc.kids) pos).shape = (tokAt (ftoks tr.doc.kids) pos).shape :=
+    fun st hst hs => nodeStep_local S tr.doc tr'.doc pos st hst (Tr.step_spec S tr tr' st hs).1
+  rcases h with ⟨m, h⟩ | ⟨sel, h⟩ | ⟨n, v, h⟩
+  · exact key _ (.inl ⟨m, rfl⟩) h
+  · unfold Tr.removeNodeMark at h
+    cases sel with
+    | inl m => exact key _ (.inr (.inl ⟨m, rfl⟩)) h
+    | inr t =>
+      simp only at h
+      split at h
+      · simp at h
+      · simp at h
+      · split at h
+        · simp only [Except.ok.injEq] at h
+          subst h
+          exact ⟨rfl, fun _ _ => rfl, rfl⟩
+        · rename_i found _
+          exact key _ (.inr (.inl ⟨found, rfl⟩)) h
+  · exact key _ (.inr (.inr ⟨n, v, rfl⟩)) h
+
 end PM.C13
